@@ -120,6 +120,11 @@ func (b *writeBuffer) advancePastLeadingZeroes() (n uint64) {
 	}
 	n = uint64(i - b.p)
 	b.p = i
+	if i < len(b.prev) {
+		// Non-zero bytes remain in b.prev. They precede everything in b.curr,
+		// so b.curr's leading zeroes are not (yet) the stream's next bytes.
+		return n
+	}
 
 	// Consume zeroes from b.curr.
 	i = 0
